@@ -3,6 +3,7 @@ use crate::core::Property;
 pub mod c02;
 pub mod c03;
 pub mod c04;
+pub mod c05;
 pub mod c12;
 pub mod c13;
 pub mod c14;
@@ -13,6 +14,7 @@ pub fn property(id: &str) -> Option<Property> {
         "C02" => Some(c02::property()),
         "C03" => Some(c03::property()),
         "C04" => Some(c04::property()),
+        "C05" => Some(c05::property()),
         "C12" => Some(c12::property()),
         "C13" => Some(c13::property()),
         "C14" => Some(c14::property()),
